@@ -129,6 +129,7 @@ impl RegexMatcher {
         Regex::with_options(pattern, options, &syntax)?;
         check_intervals(pattern, regex_type)?;
         check_back_references(pattern, regex_type)?;
+        check_classes(pattern, regex_type)?;
         // The engine stops at the first alternative that matches, so anchor the
         // end to make it try the others until the whole path is consumed ('$'
         // would also accept the position before a final newline).
@@ -140,6 +141,70 @@ impl RegexMatcher {
         let regex = Regex::with_options(&anchored, options, &syntax)?;
         Ok(Self { regex })
     }
+}
+
+/// Inside a bracket expression "[:" opens a character class: it has to be
+/// closed by ":]" and to hold one of the twelve POSIX names (the engine knows
+/// more names, and reads an unclosed "[:" as two characters).  GNU's emacs
+/// syntax has no classes.
+fn check_classes(pattern: &str, regex_type: RegexType) -> Result<(), Box<dyn Error>> {
+    if matches!(regex_type, RegexType::Emacs) {
+        return Ok(());
+    }
+    let mut rest = pattern;
+    while let Some(ch) = rest.chars().next() {
+        rest = &rest[ch.len_utf8()..];
+        match ch {
+            '\\' => {
+                let mut chars = rest.chars();
+                chars.next();
+                rest = chars.as_str();
+            }
+            '[' => {
+                // The members: a "]" first (after "^") is one of them.
+                let mut members = rest.strip_prefix('^').unwrap_or(rest);
+                members = members.strip_prefix(']').unwrap_or(members);
+                loop {
+                    let Some(i) = members.find(['[', ']']) else {
+                        // (never closed: the engine has refused it already)
+                        return Ok(());
+                    };
+                    if members.as_bytes()[i] == b']' {
+                        rest = &members[i + 1..];
+                        break;
+                    }
+                    let inner = &members[i + 1..];
+                    members = match inner.chars().next() {
+                        Some(':') => {
+                            let Some(end) = inner[1..].find(":]") else {
+                                return Err(From::from(format!(
+                                    "Unmatched [: in regular expression {pattern:?}"
+                                )));
+                            };
+                            let name = &inner[1..1 + end];
+                            if !matches!(
+                                name,
+                                "alpha" | "digit" | "alnum" | "upper" | "lower" | "space"
+                                    | "blank" | "punct" | "print" | "graph" | "cntrl" | "xdigit"
+                            ) {
+                                return Err(From::from(format!(
+                                    "Invalid character class name [:{name}:] in regular expression {pattern:?}"
+                                )));
+                            }
+                            &inner[1 + end + 2..]
+                        }
+                        Some(delim @ ('.' | '=')) => match inner[1..].find(&format!("{delim}]")) {
+                            Some(end) => &inner[1 + end + 2..],
+                            None => return Ok(()),
+                        },
+                        _ => inner,
+                    };
+                }
+            }
+            _ => {}
+        }
+    }
+    Ok(())
 }
 
 /// A back-reference to a group that is not complete where it stands - one that
